@@ -512,15 +512,17 @@ Definition check_limit_handling : D unit :=
         cnt <- gp p_check_count ;;
         r' <- gp p_rcfg ;;
         match r' with None => raise E_ATTRIBUTE | Some r' =>
-        if r_check_limit r' <=? cnt + 1 then (declare_fault C_CHECK_LIMIT ;;; ret tt)
-        else
-          (* the timer object survives only if the transaction was not abandoned meanwhile *)
+        (* the limit is not reached, or the fault is ignored: keep counting, wait for another interval (F34 repair) *)
+        let count_and_restart : D unit :=
           t' <- gp p_check_timer ;;
           match t' with
           | None => raise E_ATTRIBUTE
           | Some (_, tmo) =>
               setp (fun p => p <| p_check_count ::= (fun c => c + 1) |> <| p_check_timer := Some (n, tmo) |>)
-          end
+          end in
+        if r_check_limit r' <=? cnt + 1 then
+          (fh <- declare_fault C_CHECK_LIMIT ;; if fh =? FH_IGNORE then count_and_restart else ret tt)
+        else count_and_restart
         end
     else ret tt
   end.
